@@ -84,7 +84,7 @@ impl<L: KVVStore> CloudKVVStore<L> {
             log_view(*final(self))->Some_0 == log_view(*old(self))->Some_0.insert(key@, (version, value))
             || log_view(*final(self)) == log_view(*old(self))),                                                          //[C16.cloud.put-logs-exactly-this]
 //@sub /let commit_log = self\.commit_log\.val\.as_mut\(\)\.vx_expect\(\);/ => 
-//@sub /commit_log\.insert\(/ => self.commit_log.val.as_mut().vx_expect().insert(
+//@sub /\bcommit_log\./ => self.commit_log.val.as_mut().vx_expect().
 //@sub /existing\.1 != value/ => !vx_vec_eq(&existing.1, &value)
 //@end
 
